@@ -404,6 +404,10 @@ Definition multi_flavour (sync_start depth range : Z) : flavour :=
 Definition sequencer_flavour (sync_start depth range : Z) (legacy : bool) : flavour :=
   mkflavour sync_start depth range false legacy.
 
+(* the two syncers as they were on the pinned tree (D8): syncRange ignored the error of its transaction *)
+Definition legacy_registry_flavour (sync_start depth range : Z) : flavour := registry_flavour sync_start depth range true.
+Definition legacy_sequencer_flavour (sync_start depth range : Z) : flavour := sequencer_flavour sync_start depth range true.
+
 Definition registry_sync := sync registry_key ukey_eqb registry_admissible registry_merge.
 Definition trigger_sync := sync trigger_key ukey_eqb trigger_admissible trigger_merge.
 Definition sequencer_sync := sync sequencer_key ukey_eqb sequencer_admissible sequencer_merge.
